@@ -239,6 +239,7 @@ static Plan minimise(const PropModule &m, Plan p, const std::string &cls, double
     for (auto &kv : p.cfg) { keys.push_back(kv.first); }
     for (auto &k : keys) {
         if (out_of_budget()) { break; }
+        if (k == "ver" || k == "suite") { continue; }   // keep what the signature context is derived from
         Plan q = p; q.cfg.erase(k);
         if (still_fails(m, q, cls)) { p = q; }
     }
@@ -439,6 +440,7 @@ static int cmd_check(const std::string &id, int tier, uint64_t seed, int64_t run
     std::vector<std::string> finding_lines, violation_json;
     mkdir((VERIF_DIR + "/replays").c_str(), 0755);
     int handled = 0;
+    std::set<std::string> reported_sigs;
     for (auto &kv : by_sig) {
         Candidate &c = kv.second;
         Known *k = match_known(known, m->id, c.v.sig);
@@ -468,6 +470,8 @@ static int cmd_check(const std::string &id, int tier, uint64_t seed, int64_t run
             if (!k2->seen) { k2->seen = true; known_seen++; printf("KNOWN-FINDING: property=%s %s (seen via minimised run %llu)\n", k2->prop.c_str(), k2->text.c_str() + 7, (unsigned long long) c.index); }
             continue;
         }
+        if (reported_sigs.count(vm.sig)) { continue; }   // same minimised signature already reported
+        reported_sigs.insert(vm.sig);
         std::string rp = VERIF_DIR + "/replays/" + m->id + "-" + std::to_string(minp.seed) + "-" + u64hex(hash_str(vm.sig)).substr(8) + ".json";
         std::string detail = vm.detail; if (detail.size() > 1500) { detail.resize(1500); }
         std::string rj = "{\"property\":\"" + std::string(m->id) + "\",\"engine\":\"" + m->engine + "\",\"expected_class\":\"" + json_escape(vm.cls) +
@@ -536,6 +540,7 @@ static int cmd_check(const std::string &id, int tier, uint64_t seed, int64_t run
     return 0;
 }
 
+static bool g_inproc = false;
 static int cmd_replay(const std::string &path) {
     std::string txt;
     if (!read_file(path, txt)) { fprintf(stderr, "vsim: cannot read %s\n", path.c_str()); return 2; }
@@ -543,6 +548,7 @@ static int cmd_replay(const std::string &path) {
     if (!Plan::parse(txt, p, &ecls, &esig)) { fprintf(stderr, "vsim: cannot parse %s\n", path.c_str()); return 2; }
     const PropModule *m = find_module(p.prop);
     if (!m) { fprintf(stderr, "vsim: unknown property %s\n", p.prop.c_str()); return 2; }
+    if (g_inproc) { RunResult r = m->exec(p); printf("%s", ser_result(r).c_str()); return r.violation ? 1 : 0; }
     ChildOutcome o = run_in_child(*m, p);
     Verdict v = verdict_of(o);
     printf("replay %s: %s class=%s signature=%s fingerprint=%s\n%s\n", path.c_str(), v.bad ? "VIOLATES" : "clean", v.cls.c_str(), v.sig.c_str(), u64hex(v.fp).c_str(), v.detail.substr(0, 2000).c_str());
@@ -581,6 +587,7 @@ int main(int argc, char **argv) {
         else if (a[i] == "--secs" && i + 1 < a.size()) { secs = atoll(a[++i].c_str()); }
         else if (a[i] == "--workers" && i + 1 < a.size()) { workers = atoi(a[++i].c_str()); }
         else if (a[i] == "-v") { verbose = true; }
+        else if (a[i] == "--inproc") { g_inproc = true; }
         else if (a[i] == "--dump-fp" && i + 1 < a.size()) { g_dump_fp = a[++i]; }
         else { pos.push_back(a[i]); }
     }
